@@ -67,12 +67,19 @@ def main(argv=None):
         # the analysis error; with none, the run is analysis-broken (exit 2)
         if chk is not None and chk.has_new_findings():
             chk.infos.append('analysis stopped early: %s' % exc)
+            chk.deferred = []
             rc = chk.finish()
             report.analysis_error(pid, str(exc).replace('\n', ' '))
             return rc
         return report.analysis_error(pid, str(exc).replace('\n', ' '))
     except Exception:
         traceback.print_exc()
+        if chk is not None and chk.has_new_findings():
+            chk.deferred = []
+            rc = chk.finish()
+            report.analysis_error(pid, 'internal checker error after the '
+                                       'violations above (traceback above)')
+            return rc
         return report.analysis_error(pid, 'internal checker error (traceback '
                                           'above)')
 
